@@ -203,7 +203,7 @@ def run_unit(spec, unit, scratch, tier="quick", trace=False):
     unwind = str(unit.get("unwind_thorough" if tier == "thorough" and "unwind_thorough" in unit else "unwind", 20))
     cmd = ["cbmc", cur] + DEFAULT_CHECKS + unit.get("cbmc_flags", []) + \
           ["--unwind", unwind, "--unwinding-assertions", "--json-ui"]
-    solver = unit.get("solver", "minisat")
+    solver = unit.get("solver", spec.get("solver", "cadical"))
     if tier == "thorough" and unit.get("solver_thorough"):
         solver = unit["solver_thorough"]
     if solver in ("cadical", "kissat"):
